@@ -202,8 +202,10 @@ let () =
 let () =
   reg "outqhist" (fun toks ->
     (* the driver refuses G beyond 128 live buffers and W/F on missing indices exactly like the model's upd on short lists *)
+    let epochs = Buffer.create 64 in
     let q = List.fold_left (fun q tok ->
       match tok.[0] with
+      | 'I' -> Buffer.add_string epochs (let h = hex_of_bytes q.delivered in if h = "-" then "" else h); Buffer.add_char epochs '/'; step q Reinit
       | 'G' -> step q Get
       | 'W' -> (match String.split_on_char ',' (String.sub tok 1 (String.length tok - 1)) with
                 | [i; h] -> let cur = (match List.nth_opt q.bufs (int_of_string i) with Some b -> int_of_nat (length b.odata) | None -> 0) in
@@ -215,7 +217,9 @@ let () =
       | 'F' -> step q (Finish (nat_of_int (int_of_string (String.sub tok 1 (String.length tok - 1)))))
       | 'R' -> step q (Read (nat_of_int (min 256 (int_of_string (String.sub tok 1 (String.length tok - 1))))))
       | _ -> q) outq0 toks in
-    Printf.sprintf "%s %d 1" (hex_of_bytes q.delivered) (List.length q.bufs))
+    let last = hex_of_bytes q.delivered in
+    let all = Buffer.contents epochs ^ (if last = "-" && Buffer.length epochs > 0 then "" else last) in
+    Printf.sprintf "%s %d 1" all (List.length q.bufs))
 
 (* ---- main loop (keep last) ---- *)
 let () =
